@@ -184,7 +184,7 @@ fn probe(t: &TestingOhkami, template: &str, method: &str, op: &Value, schemes: &
     }
     // an API key goes where the document says: `in` and `name` of the scheme
     let mut key_headers: Vec<(String, String)> = vec![];
-    for s in op["security"].as_array().cloned().unwrap_or_default() {
+    for s in op["security"].as_array().cloned().unwrap_or_default().into_iter().take(1) {          // the entries of `security` are ALTERNATIVES (one suffices): the client picks the first
         for name in s.as_object().map(|o| o.keys().cloned().collect::<Vec<_>>()).unwrap_or_default() {
             let sch = &schemes[&name];
             if sch["type"] == "apiKey" {
@@ -211,7 +211,7 @@ fn probe(t: &TestingOhkami, template: &str, method: &str, op: &Value, schemes: &
             };
         }
     }
-    for s in op["security"].as_array().cloned().unwrap_or_default() {
+    for s in op["security"].as_array().cloned().unwrap_or_default().into_iter().take(1) {          // the entries of `security` are ALTERNATIVES (one suffices): the client picks the first
         for name in s.as_object().map(|o| o.keys().cloned().collect::<Vec<_>>()).unwrap_or_default() {
             req = match name.as_str() {
                 "jwtAuth" => { let tok: String = jwt().issue(Claims { sub: "s".into() }).into(); req.header("Authorization", format!("Bearer {tok}")) }
